@@ -22,6 +22,7 @@ type Contract struct {
 	Locked        bool   // `locked`: the function is entered (and left) with the UI mutex held
 	Arith2        string // "heapwf": state heap well-formedness (all stored refs < alloc) before every allocation
 	Deterministic bool
+	Order         bool // `strorder`: the order-preserving content homomorphism nsx (blank cells removed) is in play
 	Prov          bool // `provenance`: values embedded in a JSON document inherit its servedBy (axiom about decoded documents)
 	Cells         bool // `cells`: the function handles the match lists of ansi.expand (cell model on loads)
 	Lines         bool // `strlines`: line-measure facts (mxl/fstl/lstl) are emitted for its strings
@@ -343,6 +344,11 @@ func (cs *ContractSet) loadFile(path, repo string) {
 			flush()
 			if cur != nil {
 				cur.Deterministic = true
+			}
+		case "strorder":
+			flush()
+			if cur != nil {
+				cur.Order = true
 			}
 		case "provenance":
 			flush()
